@@ -281,7 +281,13 @@ def exec_cases(cases_path, events_path, profile="dev", mem_kb=4 * 1024 * 1024, t
                 if k == n:
                     case = json.loads(line)
                     break
-        ev = {"id": case["id"], "i": 0, "pre": case.get("pre", {}), "act": (case.get("acts") or [case.get("api", {})])[0],
+        if case.get("api"):     # an API case: which of its calls was running is not known
+            ops = case.get("ops") or [{}]
+            act = {"a": case["api"], "m": ops[0].get("m", "?") if len(ops) == 1 else "(one of %d calls)" % len(ops), "args": ops[0].get("args", []) if len(ops) == 1 else [],
+                   "kind": case.get("kind", ""), "elem": case.get("elem", "")}
+        else:
+            act = (case.get("acts") or [{}])[0]
+        ev = {"id": case["id"], "i": 0, "pre": case.get("pre", {}), "act": act,
               "post": {"crash": why, "msg": "process %s (rc=%s)" % (why, p.returncode)}}
         if "predict" in case:
             ev["predict"] = case["predict"]
